@@ -205,6 +205,43 @@ pub fn oneway(cex: &Value) -> Result<String, String> {
   if !log.is_empty() {
     return Ok(log.join("; "));
   }
+  // a list credential that was *parsed* (not built), then updated, then published again: the published JSON carries the update
+  {
+    use identity_core::convert::{FromJson, ToJson};
+    for purpose in [StatusPurpose::Revocation, StatusPurpose::Suspension] {
+      let built = sl_credential(purpose);
+      let Ok(text) = built.to_json() else {
+        continue;
+      };
+      let Ok(mut parsed) = StatusList2021Credential::from_json(&text) else {
+        log.push(format!("{purpose:?}: a published status list credential does not parse back"));
+        continue;
+      };
+      if parsed.update(|l| l.set_entry(33, true)).is_err() {
+        log.push(format!("{purpose:?}: update of a parsed list credential failed"));
+        continue;
+      }
+      let republished = parsed.to_json().unwrap_or_default();
+      match StatusList2021Credential::from_json(&republished) {
+        Ok(again) => {
+          if !matches!(again.entry(33), Ok(s) if s != CredentialStatus::Valid) {
+            log.push(format!("{purpose:?}: entry 33 set on a parsed list credential is lost when the credential is published again"));
+          }
+          if !matches!(again.entry(34), Ok(CredentialStatus::Valid)) {
+            log.push(format!("{purpose:?}: entry 34 reads as set after republishing"));
+          }
+        }
+        Err(e) => log.push(format!("{purpose:?}: republished list credential does not parse: {e}")),
+      }
+      let plain: Credential = parsed.clone().into_inner();
+      if !plain.to_json().map(|t| t == republished).unwrap_or(false) {
+        log.push(format!("{purpose:?}: into_inner and the serialised form disagree"));
+      }
+    }
+    if !log.is_empty() {
+      return Ok(log.join("; "));
+    }
+  }
   // a refused un-revocation must leave the list untouched even if the update closure swallows the error (best-effort batch)
   let r = no_panic(move || {
     let mut log = Vec::new();
